@@ -389,11 +389,9 @@ def run(ck, m):
 
     rule_pixel_pipeline(ck, m, "R4")
     # ---- shared with C19.R2: the transparency field of a format specifier reaches the renderer as what it denotes
-    from tiv.report import Scoped
+    from tiv.report import borrow
     import rules.c19 as c19
-    sc19 = Scoped(ck, "R4", lambda c: c.endswith("BaseImage._check_format_spec"), rids={"R2"})
-    c19.run(sc19, m)
-    ck.expect(sc19.kept >= 5, f"expected the field-use obligations of C19.R2 (got {sc19.kept})")
+    borrow(ck, c19, m, "R4", lambda c: c.endswith("BaseImage._check_format_spec"), rids={"R2"}, min_kept=5)
 
 
 MUTANTS = [
